@@ -1,3 +1,64 @@
+(* C07  ISV and JFA enrolment climbs to the joint posterior mode of the latent factors. *)
 From Coq Require Import Reals List.
-Theorem placeholder : True. Proof. exact I. Qed.
-Print Assumptions placeholder.
+From BLE Require Import Num.InstR Model.FA Proofs.RLemmas Proofs.FAEnroll.
+Import ListNotations FR.
+Open Scope R_scope.
+
+Section C07.
+Variable inv : list (list R) -> list (list R).
+Variables (C D rU rV : nat) (u : ubm) (F : fa) (X : list gstat).
+Hypothesis Hu : ubm_ok C D u.
+Hypothesis HF : fa_ok C D rU rV F.
+Hypothesis HX : Forall (gstat_ok C D) X.
+(* contract of np.linalg.inv on the precision matrices enrolment inverts *)
+Hypothesis Hinv_x : forall s, In s X -> inv_ok inv rU (xprec rU D u F s).
+Hypothesis Hinv_y : inv_ok inv rV (yprec rV D u F (sum_n C X)).
+
+(* each block update is the exact maximiser of the joint log-posterior over its block *)
+Theorem C07_z_update_is_block_argmax (y : option (list R)) (xs : list (list R)) (z' : list R) :
+  yopt_ok rV y -> length xs = length X -> Forall (fun x => length x = rU) xs -> length z' = (C * D)%nat ->
+  logpost D u F X y xs z' <= logpost D u F X y xs (update_z_class D u F X xs y (sum_n C X) (sum_f C D X)).
+Proof. exact (z_update_argmax C D rU rV u F X Hu HF HX y xs z'). Qed.
+
+Theorem C07_x_update_is_block_argmax (y : option (list R)) (z : list R) (xs' : list (list R)) :
+  yopt_ok rV y -> length z = (C * D)%nat -> length xs' = length X -> Forall (fun x => length x = rU) xs' ->
+  logpost D u F X y xs' z <= logpost D u F X y (latent_x_class inv rU D u F (wprod rU D u (fU F)) X (Some z) y) z.
+Proof. exact (x_update_argmax inv C D rU rV u F X Hu HF HX Hinv_x y z xs'). Qed.
+
+Theorem C07_y_update_is_block_argmax (xs : list (list R)) (z : list R) (y' : list R) :
+  length xs = length X -> Forall (fun x => length x = rU) xs -> length z = (C * D)%nat -> length y' = rV ->
+  logpost D u F X (Some y') xs z
+  <= logpost D u F X (Some (update_y_class inv rV D u F (wprod rV D u (fV F)) X xs z (sum_n C X) (sum_f C D X))) xs z.
+Proof. exact (y_update_argmax inv C D rU rV u F X Hu HF HX Hinv_y xs z y'). Qed.
+
+(* one more enrolment iteration never lowers the joint posterior *)
+Theorem C07_isv_enrolment_monotone (k : nat) :
+  snd (isv_state inv C D rU u F X k) = isv_enroll inv k rU D u F X
+  /\ logpost D u F X None (fst (isv_state inv C D rU u F X k)) (snd (isv_state inv C D rU u F X k))
+     <= logpost D u F X None (fst (isv_state inv C D rU u F X (S k))) (snd (isv_state inv C D rU u F X (S k))).
+Proof. exact (conj (isv_state_is_enroll inv C D rU u F X Hu k) (isv_enroll_monotone inv C D rU rV u F X Hu HF HX Hinv_x k)). Qed.
+
+Theorem C07_jfa_enrolment_monotone (k : nat) :
+  jfa_enroll inv k rU rV D u F X = (snd (fst (jfa_state inv C D rU rV u F X k)), snd (jfa_state inv C D rU rV u F X k))
+  /\ (let '(xs, y, z) := jfa_state inv C D rU rV u F X k in
+      let '(xs', y', z') := jfa_state inv C D rU rV u F X (S k) in
+      logpost D u F X (Some y) xs z <= logpost D u F X (Some y') xs' z').
+Proof. exact (conj (jfa_state_is_enroll inv C D rU rV u F X Hu k) (jfa_enroll_monotone inv C D rU rV u F X Hu HF HX Hinv_x Hinv_y k)). Qed.
+
+(* a point every block update leaves unchanged is THE joint posterior mode: global maximum, unique *)
+Theorem C07_fixed_point_is_the_unique_mode (xs : list (list R)) (y z : list R) :
+  length xs = length X -> Forall (fun x => length x = rU) xs -> length y = rV -> length z = (C * D)%nat ->
+  update_y_class inv rV D u F (wprod rV D u (fV F)) X xs z (sum_n C X) (sum_f C D X) = y ->
+  latent_x_class inv rU D u F (wprod rU D u (fU F)) X (Some z) (Some y) = xs ->
+  update_z_class D u F X xs (Some y) (sum_n C X) (sum_f C D X) = z ->
+  forall xs2 y2 z2, length xs2 = length X -> Forall (fun x => length x = rU) xs2 -> length y2 = rV -> length z2 = (C * D)%nat ->
+    logpost D u F X (Some y2) xs2 z2 <= logpost D u F X (Some y) xs z
+    /\ (logpost D u F X (Some y2) xs2 z2 = logpost D u F X (Some y) xs z -> xs2 = xs /\ y2 = y /\ z2 = z).
+Proof. exact (jfa_fixed_point_is_mode inv C D rU rV u F X Hu HF HX Hinv_x Hinv_y xs y z). Qed.
+End C07.
+Print Assumptions C07_z_update_is_block_argmax.
+Print Assumptions C07_x_update_is_block_argmax.
+Print Assumptions C07_y_update_is_block_argmax.
+Print Assumptions C07_isv_enrolment_monotone.
+Print Assumptions C07_jfa_enrolment_monotone.
+Print Assumptions C07_fixed_point_is_the_unique_mode.
